@@ -21,6 +21,10 @@ COMPILERS = {"rel": "g++", "asan": "clang++", "tsan": "clang++"}
 # property table. engine "rc": a rapidcheck executable built in the `rel` flavour.
 # quick/thorough: (multiplier on each sub-check's base case count, number of parallel seeds)
 PROPS = {
+    "C14": dict(engine="rc", exe="c14", quick=(1, 6), thorough=(12, 16),
+                extra_builds=[("tsan", ["c14_threads", "gwb-grid"], {"VERIF_TSAN_EXE": "c14_threads", "VERIF_TSAN_GRID": "wb/bin/gwb-grid"})],
+                assumptions=["schedules are sampled, not enumerated: ThreadSanitizer flags an unsynchronised conflicting pair whenever both accesses execute, but a race on a path no generated query reaches stays invisible",
+                             "worlds without random models (the statement's scope)"]),
     "C11": dict(engine="rc", exe="c11", quick=(1, 6), thorough=(20, 16),
                 assumptions=["the depth used by a feature is observed by bisection on the membership indicator (resolves to 1e-10 m, compared with 1 mm tolerance)",
                              "every corner gets the bare '[value]' entry as documented default"]),
@@ -162,6 +166,10 @@ def check_rc(pid, cfg, tier, seed):
     t0 = time.time()
     bdir = build("rel", [cfg["exe"]] + cfg.get("extra_targets", []))
     exe = os.path.join(bdir, cfg["exe"])
+    for fl, targets, envmap in cfg.get("extra_builds", []):
+        xb = build(fl, targets)
+        for k, rel in envmap.items():
+            os.environ[k] = os.path.join(xb, rel)
     mult, procs = cfg[tier]
     procs = min(procs, NCPU)
     work = os.path.join(WORK, "%s-%s-%d" % (pid, tier, os.getpid()))
